@@ -221,6 +221,21 @@ def check_case(sink, c, o, seed, idx, pool):  # noqa: C901
         sink.check(counter[0] == spec.num_leaves, 'transform/leaf-calls', 'f_leaf is applied once per leaf', ident, (counter[0], spec.num_leaves))
         sink.check(tr.num_leaves == want_shape.num_leaves and tr.num_nodes == want_shape.num_nodes, 'transform/counts', 'counts of the transformed treespec add up', ident)
         sink.count('transform-varying')
+    # re-entrant use: callbacks of transform that call transform themselves (recursive rebuild through one_level, nested leaf replacement)
+    def rebuild(sp_, depth_=0):
+        if sp_.num_nodes == 1 or depth_ > 8:
+            return sp_
+        it_ = iter(sp_.children())
+        return sp_.one_level().transform(None, lambda _l: rebuild(next(it_), depth_ + 1))
+
+    kr2, rb = outcome(lambda: rebuild(spec))
+    sink.check(kr2 == 'ok' and rb == spec and hash(rb) == hash(spec) and _paths_eq(rb.paths(), spec.paths()) and rb.num_nodes == spec.num_nodes, 'transform/recursive-rebuild',
+               'rebuilding a treespec bottom-up with nested transform calls inside the callbacks gives back an equal treespec', ident, lambda: (kr2, repr(rb)[:300]))
+    kn, nested = outcome(lambda: spec.transform(lambda s_: s_.transform(lambda x: x, lambda x: x), lambda s_: pool_specs[0].transform(None, lambda _l: pool_specs[1])))
+    kw_, want_n = outcome(lambda: spec.compose(pool_specs[0].compose(pool_specs[1])))
+    sink.check(kn == kw_ and (kn != 'ok' or (nested == want_n and nested.num_leaves == want_n.num_leaves and nested.num_nodes == want_n.num_nodes)), 'transform/nested-in-callbacks',
+               'a.transform(f_leaf = b.transform(f_leaf = c)) equals a.compose(b.compose(c)), also when the inner transform runs inside the outer callbacks', ident, lambda: (kn, repr(nested)[:300], repr(want_n)[:300]))
+    sink.count('re-entrant-transforms')
     # compose
     rng = gen.case_rng(seed, 'c08inner', idx)
     inner_desc, _ = gen.gen_desc(rng, rng.choice(['plain', 'mixed', 'dicts', 'none']), 8)
@@ -275,6 +290,7 @@ def finalize(sink, tier, seed):
     sink.require('index-probes')
     sink.require('compose-actual-trees')
     sink.require('transform-varying', 100)
+    sink.require('re-entrant-transforms', 100)
     for ctor in ('treespec_tuple', 'treespec_list', 'treespec_dict', 'treespec_ordereddict', 'treespec_defaultdict', 'treespec_deque', 'treespec_namedtuple', 'treespec_structseq',
                  'from_collection:custom'):
         sink.require(f'ctor:{ctor}')
